@@ -34,6 +34,8 @@ type H5Cfg struct {
 	RampFrom      int       `json:"ramp_from,omitempty"`
 	RampTo        int       `json:"ramp_to,omitempty"`
 	RampUnitMs    int64     `json:"ramp_unit_ms,omitempty"`
+	RampToUnitMs  int64     `json:"ramp_to_unit_ms,omitempty"` // end-rate spelled per another duration (0: the same)
+	Spell         int       `json:"spell,omitempty"`           // 1: zero-padded numbers, 2: compound Go durations
 	RampDurMs     int64     `json:"ramp_dur_ms,omitempty"`
 	Volume        float64   `json:"volume,omitempty"`
 	RepeatMs      int64     `json:"repeat_ms,omitempty"`
@@ -134,10 +136,17 @@ func (sh *h5Shared) logOuter(env *Env, t time.Time, v int) {
 	sh.outer = append(sh.outer, h5Call{CallNs: env.Sim.Now(), ArgNs: int64(t.Sub(simrt.Epoch)), V: v, Seq: env.Sim.Step()})
 }
 
-func stagesString(st []H5Stage) string {
+func stagesString(st []H5Stage, spell int) string {
 	var p []string
 	for _, s := range st {
-		p = append(p, fmt.Sprintf("%dms:%d", s.DurMs, s.Target))
+		switch spell {
+		case 1: // a zero-padded number is the same number
+			p = append(p, fmt.Sprintf("%dms:%03d", s.DurMs, s.Target))
+		case 2: // 1m30s, 1.5s …
+			p = append(p, fmt.Sprintf("%s:%d", time.Duration(s.DurMs)*time.Millisecond, s.Target))
+		default:
+			p = append(p, fmt.Sprintf("%dms:%d", s.DurMs, s.Target))
+		}
 	}
 	return strings.Join(p, ",")
 }
@@ -177,9 +186,16 @@ func h5Build(env *Env, c *H5Cfg, sh *h5Shared) (*api.Rates, error) {
 			start = &s
 			sh.stagedT0 = int64(s.Sub(simrt.Epoch))
 		}
-		return staged.CalculateStagedRate(c.Jitter, freq, stagesString(c.Stages), c.Dist, start)
+		return staged.CalculateStagedRate(c.Jitter, freq, stagesString(c.Stages, c.Spell), c.Dist, start)
 	case "ramp":
-		return ramp.CalculateRampRate(fmt.Sprintf("%d/%dms", c.RampFrom, c.RampUnitMs), fmt.Sprintf("%d/%dms", c.RampTo, c.RampUnitMs), c.Dist,
+		toUnit, pat := c.RampUnitMs, "%d/%dms"
+		if c.RampToUnitMs > 0 {
+			toUnit = c.RampToUnitMs
+		}
+		if c.Spell == 1 {
+			pat = "%03d/%dms"
+		}
+		return ramp.CalculateRampRate(fmt.Sprintf(pat, c.RampFrom, c.RampUnitMs), fmt.Sprintf(pat, c.RampTo, toUnit), c.Dist,
 			time.Duration(c.RampDurMs)*time.Millisecond, c.Jitter)
 	case "gaussian":
 		return gaussian.CalculateGaussianRate(c.Volume, c.Jitter, time.Duration(c.RepeatMs)*time.Millisecond, freq,
@@ -228,7 +244,7 @@ func (h5) Decode(raw json.RawMessage) (any, error) {
 func (h5) Describe(cfg any) string {
 	c := cfg.(*H5Cfg)
 	return fmt.Sprintf("H5 %s dist=%s jitter=%g freq=%dms run=%s stages=%s ramp=%d..%d/%dms gauss(v=%g rep=%d peak=%d sd=%d w=%v) rates=%d",
-		c.Kind, c.Dist, c.Jitter, c.FreqMs, dur(c.RunNs), stagesString(c.Stages), c.RampFrom, c.RampTo, c.RampDurMs, c.Volume, c.RepeatMs, c.PeakMs, c.StddevMs, c.Weights, len(c.Rates))
+		c.Kind, c.Dist, c.Jitter, c.FreqMs, dur(c.RunNs), stagesString(c.Stages, c.Spell), c.RampFrom, c.RampTo, c.RampDurMs, c.Volume, c.RepeatMs, c.PeakMs, c.StddevMs, c.Weights, len(c.Rates))
 }
 
 func (h5) Gen(prop, tier string, r *simrt.Rng) (any, simrt.Config) {
@@ -276,6 +292,7 @@ func (h5) Gen(prop, tier string, r *simrt.Rng) (any, simrt.Config) {
 			c.RunNs = (total+int64(r.Intn(5))*60000)*ms + odd(r)
 			c.Direct = true
 		}
+		c.Spell = simrt.Pick(r, 0, 0, 0, 1, 2)
 	case "ramp":
 		c.RampUnitMs = simrt.Pick(r, int64(10), 50, 100, 100, 1000)
 		c.RampFrom, c.RampTo = r.Intn(201), r.Intn(201)
@@ -287,7 +304,18 @@ func (h5) Gen(prop, tier string, r *simrt.Rng) (any, simrt.Config) {
 			c.RampDurMs += int64(r.Intn(int(c.RampUnitMs)))
 		}
 		c.RunNs = (c.RampDurMs+int64(r.Intn(5))*c.RampUnitMs)*ms + odd(r)
+		if r.Intn(8) == 0 && c.RampUnitMs >= 100 {
+			// start and end rate spelled per different durations: refused, or a ramp between what the two rates spell
+			if r.Intn(2) == 0 {
+				c.RampToUnitMs = c.RampUnitMs / 10
+			} else {
+				c.RampToUnitMs = c.RampUnitMs * 10
+				c.RampTo = 10 * (1 + r.Intn(30))
+			}
+		}
+		c.Spell = simrt.Pick(r, 0, 0, 0, 1)
 		if r.Intn(6) == 0 {
+			c.RampToUnitMs = 0
 			// long horizon: a ramp over hours, evaluated once a minute
 			c.RampUnitMs = 60000
 			c.RampFrom, c.RampTo = r.Intn(2001), r.Intn(2001)
@@ -604,7 +632,12 @@ func h5Shape(env *Env, c *H5Cfg, sh *h5Shared) {
 		}
 	} else {
 		total = c.RampDurMs * ms
-		segs = []seg{{0, total, int64(c.RampFrom), int64(c.RampTo)}}
+		to := int64(c.RampTo)
+		if c.RampToUnitMs > 0 {
+			to = to * c.RampUnitMs / c.RampToUnitMs // the end rate per tick of the start rate's duration (exact by construction)
+			env.Hit("h5.ramp_mixed_units_accepted")
+		}
+		segs = []seg{{0, total, int64(c.RampFrom), to}}
 		if sh.ratesDurNs != total {
 			env.Violate("C10", "wrong-total-duration", "shape/ramp", "reported total duration %s, the ramp lasts %s", dur(sh.ratesDurNs), dur(total))
 		}
